@@ -29,6 +29,7 @@ def parseStep (s : String) : Option Step :=
     | [k, v] => do pure (.updateInst (← k.toNat?) (← v.toInt?))
     | _ => none
   | 'D' :: rest => do pure (.deleteInst (← (String.ofList rest).toNat?))
+  | ['s'] => some .select
   | _ => none
 
 def parseSteps (s : String) : Option (List Step) :=
